@@ -1,7 +1,238 @@
 import Driver.Common
+import Log4rsModel.Pattern.Encode
+/-
+C11 driver. Case: pattern, record fields, thread name, MDC. The implementation's observation
+carries, after outcome and operation stream, the environment facts the model takes as inputs
+(build profile, pid, tid, digit masking flag, and per date format of the pattern what chrono
+answered). The model's observation echoes those facts so that equal behaviour gives equal lines.
+-/
 namespace Driver.C11
-open Driver
+open Log4rs Log4rs.Proto Log4rs.Pattern Log4rs.Pattern.Parse Driver
 
-def handle : Handler := fun _ _ => badCase "unimplemented"
+/-- non-ASCII sample characters of the generators: (code point, alphabetic, alphanumeric); the
+harness asserts at start-up that Rust classifies them this way (`c11.rs: SAMPLE_CHARS`) -/
+def sampleTable : List (Nat × Bool × Bool) := [
+  (0xe9, true, true), (0xdf, true, true), (0x3a9, true, true), (0x4e2d, true, true),
+  (0xaa, true, true), (0x2177, true, true),
+  (0x663, false, true), (0xb2, false, true), (0xbd, false, true),
+  (0x1f600, false, false), (0x301, false, false), (0x200b, false, false), (0xa0, false, false),
+  (0x2192, false, false), (0xff5b, false, false)]
+
+def lookupSample (n : Nat) : Option (Bool × Bool) :=
+  (sampleTable.find? (fun e => e.1 = n)).map (·.2)
+
+def driverClass : CharClass where
+  alpha c := if c.toNat < 128 then asciiAlpha c else ((lookupSample c.toNat).map (·.1)).getD false
+  alnum c := if c.toNat < 128 then asciiAlnum c else ((lookupSample c.toNat).map (·.2)).getD false
+
+def classifiable (s : List Char) : Bool :=
+  s.all (fun c => c.toNat < 128 || (lookupSample c.toNat).isSome)
+
+structure DateFact where
+  fmt : List Char
+  utc : Bool
+  ok : Bool
+  text : List Char
+
+structure Facts where
+  debug : Bool
+  pid : Nat
+  tid : Nat
+  masked : Bool
+  dates : List DateFact
+  raw : String
+
+def decDateFact (s : String) : Option DateFact :=
+  match splitOnChar ';' s with
+  | [f, u, o, t] => do
+    let fmt ← decStr f
+    let utc ← decBool u
+    let ok ← decBool o
+    let text ← decStr t
+    pure { fmt, utc, ok, text }
+  | _ => none
+
+def decFacts (fs : List String) : Option Facts :=
+  match fs with
+  | [d, p, t, m, ds] => do
+    let debug ← decBool d
+    let pid ← decNat p
+    let tid ← decNat t
+    let masked ← decBool m
+    let dates ← mapM? decDateFact (decList ',' ds)
+    pure { debug, pid, tid, masked, dates, raw := " ".intercalate fs }
+  | _ => none
+
+structure Case where
+  pattern : List Char
+  record : Record
+  thread : Option (List Char)
+  mdc : List (List Char × List Char)
+
+def decKV (s : String) : Option (List Char × List Char) :=
+  match splitOnChar ';' s with
+  | [k, v] => do pure ((← decStr k), (← decStr v))
+  | _ => none
+
+def decCase (fs : List String) : Option Case :=
+  match fs with
+  | [p, l, m, t, mo, fi, li, th, md] => do
+    let pattern ← decStr p
+    let level ← decNat l
+    let message ← decStr m
+    let target ← decStr t
+    let module ← decOpt decStr mo
+    let file ← decOpt decStr fi
+    let line ← decOpt decNat li
+    let thread ← decOpt decStr th
+    let mdc ← mapM? decKV (decList ',' md)
+    if level < 1 || level > 5 then none else
+    pure { pattern, record := { level, message, target, module, file, line }, thread, mdc }
+  | _ => none
+
+def findDate (ds : List DateFact) (fmt : List Char) (utc : Bool) : Option DateFact :=
+  ds.find? (fun d => d.fmt = fmt && d.utc = utc)
+
+def envOf (c : Case) (f : Facts) : Env where
+  strftimeOk fmt utc := ((findDate f.dates fmt utc).map (·.ok)).getD false
+  dateText fmt utc := ((findDate f.dates fmt utc).map (·.text)).getD []
+  threadName := c.thread
+  threadId := f.tid
+  pid := f.pid
+  mdc := c.mdc
+  debugBuild := f.debug
+
+/-- mirror of `c11.rs: widths_sane`: every maximal run of ASCII digits has a value below 4096 -/
+def widthsSaneAux : List Char → List Char → Bool
+  | [], run => Str.digitsVal run.reverse < 4096
+  | c :: r, run =>
+    if Str.isAsciiDigit c then widthsSaneAux r (c :: run)
+    else Str.digitsVal run.reverse < 4096 && widthsSaneAux r []
+
+def widthsSane (s : List Char) : Bool := widthsSaneAux s []
+
+def maskDigits (masked : Bool) (s : List Char) : List Char :=
+  if masked then s.map (fun c => if Str.isAsciiDigit c then '#' else c) else s
+
+def renderStyle (s : Style) : String :=
+  "S" ++ encOpt toString s.text ++ "/" ++ encOpt toString s.background ++ "/" ++ encOpt encBool s.intense
+
+/-- the operation stream as the harness prints it: adjacent characters form one text item -/
+def renderOpsAux (masked : Bool) : Out → List Char → List String → List String
+  | [], run, acc =>
+    (if run.isEmpty then acc else ("T" ++ encStr (maskDigits masked run.reverse)) :: acc).reverse
+  | .ch c :: r, run, acc => renderOpsAux masked r (c :: run) acc
+  | .style s :: r, run, acc =>
+    let acc := if run.isEmpty then acc else ("T" ++ encStr (maskDigits masked run.reverse)) :: acc
+    renderOpsAux masked r [] (renderStyle s :: acc)
+
+def renderOps (masked : Bool) (o : Out) : String := encList "," (renderOpsAux masked o [] [])
+
+/-- text of the implementation's operation stream (style items dropped) -/
+def implText (ops : String) : Option (List Char) :=
+  if ops = "-" then none else
+  (mapM? (fun (it : String) =>
+      if it.startsWith "T" then decStr (it.drop 1).toString
+      else if it.startsWith "S" then some []
+      else none) (decList ',' ops)).map List.flatten
+
+def errSlug (e : List Char) : String :=
+  let w := String.ofList (e.takeWhile (fun c => c ≠ '\'' && c ≠ '`'))
+  "error:" ++ (w.trimAscii.toString.replace " " "-")
+
+def firstError : List Chunk → Option (List Chunk × List Char)
+  | [] => none
+  | .error e :: _ => some ([], e)
+  | c :: cs => (firstError cs).map (fun (pre, e) => (c :: pre, e))
+
+mutual
+def hasNestedError : Chunk → Bool
+  | .group _ cs _ => hasErrorL cs
+  | _ => false
+def hasErrorL : List Chunk → Bool
+  | [] => false
+  | .error _ :: _ => true
+  | c :: cs => hasNestedError c || hasErrorL cs
+end
+
+def hasSpec : Chunk → Bool
+  | .leaf _ p => p.minW.isSome || p.maxW.isSome
+  | .group _ _ p => p.minW.isSome || p.maxW.isSome
+  | _ => false
+
+def profile : Profile := Profile.debug64
+
+def handle : Handler := fun cas obs =>
+  match decCase cas with
+  | none => badCase "case"
+  | some c =>
+    match obs.flatMap (splitOnChar ' ') with
+    | implOutcome :: implOps :: factFields =>
+      match decFacts factFields with
+      | none => badCase "facts"
+      | some f =>
+        if !classifiable c.pattern then badCase "character outside the sample table" else
+        let env := envOf c f
+        let parsed := parse driverClass profile c.pattern
+        let tail := " " ++ f.raw
+        let nonAscii := c.pattern.any (fun ch => ch.toNat ≥ 128)
+        let baseTags := (if nonAscii then ["non-ascii"] else []) ++
+          (if c.pattern.any Str.isAsciiDigit then ["digits"] else [])
+        match parsed with
+        | .err _ => { model := "model-out-of-fuel", spec := "FAIL:model;sig=C11/model-fuel", tags := [] }
+        | .panic _ =>
+          let spec := if implOutcome.startsWith "PANIC" then "FAIL:panic at construction;sig=C11/width-overflows-usize" else "ok"
+          { model := "PANIC:new -" ++ tail, spec, tags := "parse-panic" :: baseTags }
+        | .ok pieces =>
+          let chunks := compileL pieces
+          let times := timesOfL chunks
+          let missing := times.filter (fun (fm, u) => (findDate f.dates fm u).isNone)
+          let errTags := match firstError chunks with
+            | some (_, e) => [errSlug e]
+            | none => []
+          let tags := baseTags ++ errTags ++
+            (if hasErrorL chunks && (firstError chunks).isNone then ["nested-error"] else []) ++
+            (if times.isEmpty then [] else ["date"]) ++
+            (if chunks.any hasSpec then ["spec"] else []) ++
+            (if chunks.any (fun | .group _ _ _ => true | _ => false) then ["group"] else []) ++
+            (if f.masked then ["masked"] else [])
+          let trivial := !(c.pattern.any isSpecial)
+          let tags := if trivial then "trivial" :: tags else tags
+          if !widthsSane c.pattern then
+            let spec := if implOutcome.startsWith "PANIC" then "FAIL:panic;sig=C11/panic-unexplained" else "ok"
+            { model := "new-only -" ++ tail, spec, tags := "wide" :: tags }
+          else if !missing.isEmpty then
+            { model := "need-date:" ++ encStr (missing.head!.1) ++ tail, spec := "ok", tags }
+          else
+            let encoded := encList env c.record chunks
+            let model := match encoded with
+              | .ok o => "ok " ++ renderOps f.masked o ++ tail
+              | .panic _ => "PANIC:encode -" ++ tail
+              | .err _ => "err -" ++ tail
+            let tags := match encoded with
+              | .panic _ => "encode-panic" :: tags
+              | _ => tags
+            -- the executable reading of the statement, on the implementation's observation
+            let spec :=
+              if implOutcome.startsWith "PANIC" then
+                match encoded with
+                | .panic _ => "FAIL:panic at encode;sig=C11/invalid-strftime"
+                | _ => "FAIL:panic;sig=C11/panic-unexplained"
+              else if implOutcome = "ok" then
+                match firstError chunks, implText implOps with
+                | some (pre, e), some txt =>
+                  match encList env c.record pre with
+                  | .ok o =>
+                    let want := maskDigits f.masked (o.text ++ errorMarker e)
+                    if Str.isPrefix want txt then "ok"
+                    else "FAIL:error marker or the text before it is missing;sig=C11/error-not-surfaced"
+                  | _ => "ok"
+                | none, some txt =>
+                  if trivial && txt ≠ maskDigits f.masked c.pattern then "FAIL:plain text changed;sig=C11/plain-text"
+                  else "ok"
+                | _, none => "FAIL:unreadable operation stream;sig=C11/ops"
+              else "ok"
+            { model, spec, tags }
+    | _ => badCase "observation"
 
 end Driver.C11
